@@ -112,3 +112,71 @@ pub fn builder_run(case: &Value) -> Value {
         }
     }
 }
+
+/// `{input_gates, cache, reqs, outs}` with panic-record operations interleaved with gate requests.
+pub fn panic_run(case: &Value) -> Value {
+    use garble_lang::token::MetaInfo;
+    use garble_lang::verif_hooks::PanicSnapshot;
+    let sizes = usize_list(&case["input_gates"]);
+    let cache = case["cache"].as_bool().unwrap_or(true);
+    let reqs = case["reqs"].as_array().cloned().unwrap_or_default();
+    let outs = case["outs"].as_array().cloned().unwrap_or_default();
+    let r = guarded(|| {
+        let mut b = Builder::new(sizes.clone(), cache);
+        let total: usize = sizes.iter().sum();
+        let mut rs: Vec<usize> = (0..total + 2).collect();
+        let mut snaps: Vec<PanicSnapshot> = vec![];
+        let n = |v: &Value| v.as_u64().unwrap_or(0) as usize;
+        for r in &reqs {
+            match r[0].as_str().unwrap_or("") {
+                "panic_if" => {
+                    if let Some(c) = h(&rs, &r[1]) {
+                        let meta = MetaInfo { start: (n(&r[3]), n(&r[4])), end: (n(&r[5]), n(&r[6])) };
+                        b.push_panic_if(c, n(&r[2]), meta);
+                    }
+                }
+                "snapshot" => snaps.push(b.snapshot_panic()),
+                "restore" => {
+                    if let Some(p) = snaps.get(n(&r[1])).cloned() {
+                        let old = b.replace_panic_with(p);
+                        snaps.push(old);
+                    }
+                }
+                "mux_panic" | "install_mux" => {
+                    if let (Some(c), Some(t), Some(f)) =
+                        (h(&rs, &r[1]), snaps.get(n(&r[2])).cloned(), snaps.get(n(&r[3])).cloned())
+                    {
+                        let m = b.mux_panic(c, &t, &f);
+                        if r[0].as_str() == Some("mux_panic") {
+                            snaps.push(m);
+                        } else {
+                            b.replace_panic_with(m);
+                        }
+                    }
+                }
+                _ => apply_req(&mut b, &mut rs, r),
+            }
+        }
+        let (shift, gates) = b.dump();
+        let out_wires: Vec<usize> = outs.iter().filter_map(|o| h(&rs, o)).collect();
+        let circuit = b.build(out_wires);
+        (shift, gates, rs, circuit)
+    });
+    match r {
+        Err(p) => json!({"panic": p}),
+        Ok((shift, gates, rs, circuit)) => {
+            let gates: Vec<Value> = gates
+                .iter()
+                .map(|(is_and, x, y)| json!([if *is_and { "A" } else { "X" }, x, y]))
+                .collect();
+            let mut evals = vec![];
+            for ins in all_assignments(&sizes, 10) {
+                match guarded(|| circuit.eval(&ins)) {
+                    Ok(bits) => evals.push(bits_to_string(&bits)),
+                    Err(_) => evals.push("panic".to_string()),
+                }
+            }
+            json!({"shift": shift, "gates": gates, "results": rs, "circuit": ssa_to_json(&circuit), "evals": evals})
+        }
+    }
+}
